@@ -669,7 +669,7 @@ def distribution(cases, obs):
 
 
 LEVEL_TEXT = ('parse_to_dict is modelled step for step (try_parse / parse_tuple / parse_pair / lazy dict construction) '
-              'with the parser as an oracle (coq/theories/Parse.v); props/C19.v proves (15 theorems) for ALL item lists, '
+              'with the parser as an oracle (coq/theories/Parse.v); props/C19.v proves (17 theorems) for ALL item lists, '
               'separators, oracles and parse_keys: the result is the dictionary of the parsed pairs or the error of the '
               'first bad item (parse_model_spec, pair_equations); strings are split at the first occurrence of the '
               'separator only (split_first_only, split_none: complete characterisation); the three input shapes agree '
@@ -680,7 +680,8 @@ LEVEL_TEXT = ('parse_to_dict is modelled step for step (try_parse / parse_tuple 
               'model (monitor_accepts_model) and sound AND complete w.r.t. a model-free relational statement about the '
               'observation alone — first-occurrence cut, literal replacement by the oracle table, keys iff parse_keys, '
               'insertion-built dictionary, first failing item decides, parser call log, tripwire silent — '
-              '(monitor_sound, monitor_sound_converse, statement_relations_are_the_model).  The source facts (default '
+              '(monitor_sound, monitor_sound_converse, statement_relations_are_the_model, model_satisfies_statement; '
+              'monitor_is_model_comparison: ok c = agree c for every case).  The source facts (default '
               'parser is ast.literal_eval, split(sep, 1), bare except, isinstance guards, parse_keys branch, .items(), '
               'dict(map(parse_pair, items)) or its explicit-loop spelling) are re-extracted from the AST on every run '
               'and must equal the modelled shape (source_shape_as_modelled).  Tied to /repo by running the real '
